@@ -579,10 +579,11 @@ fn flush_tally(run: &vpc::Run) -> std::collections::BTreeMap<String, u64> {
     let g = std::mem::take(&mut *TALLY.lock().unwrap());
     let mut counts = std::collections::BTreeMap::new();
     for (class, (n, _, what, w)) in g {
-        run.violation(&class, &what, w);
-        for _ in 1..n {
-            run.violation(&class, &what, vpc::Value::Null);
-        }
+        // one call per class (Run keeps the smallest witness it is offered); the number of
+        // witnesses goes into the evidence as `witnesses_per_violation_class`
+        let mut w = w;
+        w["witnesses_this_run"] = json!(n);
+        run.violation(&class, &format!("{what} [{n} witnesses this run]"), w);
         counts.insert(class, n);
     }
     counts
